@@ -79,6 +79,12 @@ func init() {
 					pairs(e, "c05live:"+con+":"+q, "live/"+con+"->"+q, lv, lv)
 				}
 			}
+			lv4 := c04LiveDocs()
+			for _, con := range []string{"leaf:none", "leaf:SET", "leaf:MULTISET", "leaf:SETKEYS:id"} {
+				for _, q := range []string{"none", "SET", "MULTISET"} {
+					pairs(e, "c05live:"+con+":"+q, "live/"+con+"->"+q, lv4, lv4)
+				}
+			}
 			kl := KeyedLoose()
 			pairs(e, "c05:SETKEYS:id", "Kloose/SETKEYS:id", kl, kl)
 			for _, o := range c05Opts {
